@@ -36,6 +36,9 @@ def main(argv: list[str] | None = None) -> int:
         repo = Repo(args.repo)
         chk = Check(prop, args.tier, args.repo, seed)
         mod.run(repo, chk)
+        from rules.common import cache_audit
+
+        cache_audit(repo, chk, prop)
         if args.tier == "thorough" and not args.no_selftest:
             # self-validation of the rules on mutated scratch copies (informational, never the verdict)
             from selftest import runner
